@@ -29,7 +29,7 @@ KINDS_FILES = ["path", "path", "pathnested", "bin", "bin", "text", "textnl", "by
 
 def gen(seed, run, sub="files", tier="quick"):
     r = common.rng_for(seed, run, "c14/" + sub)
-    nw = r.choice([1, 2, 3, 4, 6])
+    nw = r.choice([1, 2, 3, 4, 6, 12])
     writers = []
     for i in range(nw):
         kind = r.choice(KINDS_FILES)
@@ -52,14 +52,19 @@ def gen(seed, run, sub="files", tier="quick"):
             t = r.choice(TEXTS) + (" ; n%d" % k_ if r.random() < 0.5 else "")
             if r.random() < 0.1 and not ascii_only:
                 t = r.choice(["", "   ", "; only comment %d" % k_])
+            elif r.random() < 0.03:
+                t = "M117 " + "x" * r.choice([300, 4100, 9000]) + " %d" % k_      # a very long statement
             ops.append(["write", t])
         elif u < 0.46:
             txt = (r.choice(UNI) if not ascii_only else "note") + " %d" % k_
             ops.append(["comment", txt])
         elif u < 0.54:
             ops.append(["move", r.randrange(-50, 50) + r.choice([0, 0.5, 0.125]), r.randrange(-50, 50)])
-        elif u < 0.58:
+        elif u < 0.565:
             ops.append(["halt_seq", "stop %d" % k_])
+        elif u < 0.58:
+            ops.append(["call", r.choice(["fan", "sleep", "feed", "tool_on", "tool_off", "coolant_on", "coolant_off",
+                                          "bed", "query", "circle", "polyline"]), r.randrange(1, 200)])
         elif u < 0.66:
             ops.append(["add", r.randrange(len(writers))])
         elif u < 0.72:
@@ -74,6 +79,8 @@ def gen(seed, run, sub="files", tier="quick"):
             ops.append(["observe"])
         else:
             ops.append(["teardown"] if r.random() < 0.7 else ["teardown", False])
+            if r.random() < 0.15:
+                ops.append(["teardown"])          # twice in a row
         k_ += 1
     ops.append(["flush"] if r.random() < 0.5 else ["observe"])
     ops.append(["teardown"])
@@ -407,6 +414,27 @@ def execute(scn, guide=None, keep=False):
                 elif kind == "halt_seq":
                     g.emergency_halt(op[1])
                     absorb(4)
+                elif kind == "call":
+                    # other write-producing builder calls; a call the builder rejects (interlock,
+                    # validation) is not an error of the delivery path - whatever the reference
+                    # writer received is the reference
+                    v_ = op[2]
+                    try:
+                        {"fan": lambda: g.set_fan_speed(v_ % 256), "sleep": lambda: g.sleep(v_ / 10.0),
+                         "feed": lambda: g.set_feed_rate(100 + v_), "tool_on": lambda: g.tool_on("cw", 100 + v_),
+                         "tool_off": g.tool_off, "coolant_on": lambda: g.coolant_on("flood"),
+                         "coolant_off": g.coolant_off, "bed": lambda: g.set_bed_temperature(v_ % 120),
+                         "query": lambda: g.query("position"),
+                         "circle": lambda: (g.move(x=0, y=0), g.trace.circle(center=(5 + v_ % 7, 0))),
+                         "polyline": lambda: g.trace.polyline([(v_ % 9, 1), (2, v_ % 5), (3, 3)])}[op[1]]()
+                    except SimAbort:
+                        raise
+                    except Exception as e:
+                        from gscrib.excepts import GscribError as _GE
+                        if not isinstance(e, (_GE, ValueError, TypeError)):
+                            raise
+                        k.probe("c14.builder_call_rejected")
+                    absorb(None)
                 elif kind == "set_le":
                     # the application changes the line ending of the live formatter
                     g.format.set_line_endings(op[1])
